@@ -1,9 +1,10 @@
 (* Extraction of the C14 model (hash table of the code) and specification (ordered
    association list) to OCaml.  ExtrOcamlBasic only; Z/positive stay Coq datatypes. *)
 From Coq Require Import ZArith List ExtrOcamlBasic.
-Require Import ZV.Model.HashTbl.
+Require Import ZV.Model.HashTbl ZV.Model.HashObj.
 Extraction "model.ml" Z.add Z.mul Z.opp Z.div_eucl Z.of_nat Z.to_nat Z.compare
   empty make_hash step s_step hash_get hash_get_default len keys hpair range_pair range_key
   str_obs json_obs loop_macro loop_infix abs
   s_lookup s_get s_len s_keys s_pair s_range_key s_str s_json s_loop
-  ceq kid unwrap ahash khash key_ok.
+  ceq kid unwrap ahash khash key_ok
+  erase oid oceq ohash okid ounwrap okey_ok ostep orun os_step erase_op state_obs.
